@@ -643,6 +643,10 @@ def run(tier, seed, replay):
         rep.cov["float_patterns"] = len(fl)
         for i in range(0, len(fl), 12):
             cases.append({"vs": fl[i:i + 12], "lib": True, "cli": [{"c": True}, r.choice(base), {"C": True}]})
+        # kept literals of every lexical shape through the number-editing operators (LibChecks neg / negneg) and the encoders
+        lits = ["1e-5", "2.5E-9", "-1e-5", "0", "-0", "1E+2", "0.0e-0", "-0.0", "1e5", "-2E-3", "10", "-10", "1.5", "0e0", "123456789012345678901234567890", "-1e-400", "1e400", "0.000001", "1E-7"]
+        for k in range(0, len(lits), 10):
+            cases.append({"vs": [L(x) for x in lits[k:k + 10]], "lib": True, "cli": [{"c": True}, {}]})
         # 4. GOJQ_COLORS variants (valid, invalid, partial)
         pal_vs = [A([NULL, B(True), B(False), I(1), F(1.5), L("1.0"), S(b"s\xff"), A([]), O([]), O([(b"k", A([I(1)])), (b"\xff", NULL)])])]
         for cs in COLORS_OK + COLORS_BAD:
